@@ -11,6 +11,7 @@ CONSTANTS
   Vias = {"ci", "dbc"}
   MapKinds = {"none", "own", "foreign"}
   URs = {FALSE, TRUE}
+  NoAutos = {FALSE, TRUE}
   Faults = {0, 1, 3, 4, 6, 99}
   DelFaults = {0, 1, 2, 3, 4}
   MaxOps = 7
